@@ -20,7 +20,7 @@ fn metric(k: i64) -> system::MetricType {
 }
 
 /// shape: p0 = metric type of rule 1, p1 = strategy (0 NoAdaptive, 1 BBR), p2 = history length (inbound entries before the probe),
-/// p3 = metric type of a second rule + 1 (0 = none)
+/// p3 = metric type of a second rule + 1 (0 = none), p4 = 1: BBR pattern, p5 = additional probes (each one decided and checked)
 pub fn c09_system(s: Shape) {
     let nrules = if s.p[3] == 0 { 1 } else { 2 };
     let hist = s.p[2] as usize;
@@ -85,72 +85,80 @@ pub fn c09_system(s: Shape) {
         }
     }
     system::load_rules(rules.clone());
-    t += vrt::any_u64("gap", 0, 600);
-    clock::set_ns(t * 1_000_000);
-    // ---- what the system slot observes now, recomputed from the ledger
-    let cur = t - t % 500;
-    let mut passes = 0u64;
-    for &p in ev_pass_t.iter() {
-        let b = p - p % 500;
-        passes += vrt::ite_u64((b + 1000 > cur) & (b <= cur), 1, 0);
-    }
-    let (mut done, mut rt_sum) = (0u64, 0u64);
-    let mut min_rt = 60000u64;
-    let mut per_bucket = [0u64; 2]; // completes in the current / the previous bucket
-    for i in 0..ev_done_t.len() {
-        let b = ev_done_t[i] - ev_done_t[i] % 500;
-        let inw = (b + 1000 > cur) & (b <= cur);
-        done += vrt::ite_u64(inw, 1, 0);
-        rt_sum += vrt::ite_u64(inw, ev_done_rt[i], 0);
-        min_rt = vrt::ite_u64(inw & (ev_done_rt[i] < min_rt), ev_done_rt[i], min_rt);
-        per_bucket[0] += vrt::ite_u64(b == cur, 1, 0);
-        per_bucket[1] += vrt::ite_u64(b + 500 == cur, 1, 0);
-    }
-    let conc = open.len() as u64;
-    let max_complete = vrt::ite_u64(per_bucket[0] > per_bucket[1], per_bucket[0], per_bucket[1]);
-    // BBR lets the request through unless more than one request is in flight and they exceed the capacity
-    // estimate: best completed-per-second rate (max per bucket x 2 buckets/s) x min rt / 1000
-    let bbr_pass = !((conc > 1) & (conc * 1000 > max_complete * 2 * min_rt));
-    let inbound = vrt::any_bool("inbound");
-    let mut want_block = false;
-    let mut trips = [false; 2];
-    for r in 0..nrules {
-        let thr = thr4[r];
-        let trip = match kinds[r] {
-            0 => (load4 > thr) & ((s.p[1] == 0) | !bbr_pass),
-            1 => (done > 0) & (rt_sum * 4 >= thr * done) | ((done == 0) & (thr == 0)),
-            2 => conc * 4 >= thr,
-            3 => passes * 4 >= thr,
-            _ => (cpu4 * 100 > thr) & ((s.p[1] == 0) | !bbr_pass),
-        };
-        trips[r] = trip;
-        want_block = want_block | trip;
-    }
-    let blocks_before = rec.blocks.load(Ordering::SeqCst);
-    let got = EntryBuilder::new(res.clone())
-        .with_resource_type(ResourceType::Common)
-        .with_traffic_type(if inbound { TrafficType::Inbound } else { TrafficType::Outbound })
-        .with_slot_chain(chain.clone())
-        .build();
-    match got {
-        Ok(e) => {
-            vrt::cover("admitted");
-            vrt::check(!inbound | !want_block, "C09:admitted-though-a-metric-trips");
-            e.exit();
+    // p5 + 1 probes; an admitted inbound probe completes at once and joins the ledger, a rejected one must leave no trace
+    for _probe in 0..(1 + s.p[5] as usize) {
+        t += vrt::any_u64("gap", 0, 600);
+        clock::set_ns(t * 1_000_000);
+        // ---- what the system slot observes now, recomputed from the ledger
+        let cur = t - t % 500;
+        let mut passes = 0u64;
+        for &p in ev_pass_t.iter() {
+            let b = p - p % 500;
+            passes += vrt::ite_u64((b + 1000 > cur) & (b <= cur), 1, 0);
         }
-        Err(_) => {
-            vrt::cover("rejected");
-            vrt::check(inbound, "C09:outbound-entry-rejected");
-            vrt::check(want_block, "C09:rejected-though-no-metric-trips");
-            vrt::check(rec.blocks.load(Ordering::SeqCst) == blocks_before + 1, "C09:block-notified-once");
-            vrt::check(rec.last_block.load(Ordering::SeqCst) == 4, "C09:block-type-system");
-            let mut named = false;
-            for r in 0..nrules {
-                if same_rule(&rec, &rules[r]) {
-                    named = named | trips[r];
+        let (mut done, mut rt_sum) = (0u64, 0u64);
+        let mut min_rt = 60000u64;
+        let mut per_bucket = [0u64; 2]; // completes in the current / the previous bucket
+        for i in 0..ev_done_t.len() {
+            let b = ev_done_t[i] - ev_done_t[i] % 500;
+            let inw = (b + 1000 > cur) & (b <= cur);
+            done += vrt::ite_u64(inw, 1, 0);
+            rt_sum += vrt::ite_u64(inw, ev_done_rt[i], 0);
+            min_rt = vrt::ite_u64(inw & (ev_done_rt[i] < min_rt), ev_done_rt[i], min_rt);
+            per_bucket[0] += vrt::ite_u64(b == cur, 1, 0);
+            per_bucket[1] += vrt::ite_u64(b + 500 == cur, 1, 0);
+        }
+        let conc = open.len() as u64;
+        let max_complete = vrt::ite_u64(per_bucket[0] > per_bucket[1], per_bucket[0], per_bucket[1]);
+        // BBR lets the request through unless more than one request is in flight and they exceed the capacity
+        // estimate: best completed-per-second rate (max per bucket x 2 buckets/s) x min rt / 1000
+        let bbr_pass = !((conc > 1) & (conc * 1000 > max_complete * 2 * min_rt));
+        let inbound = vrt::any_bool("inbound");
+        let mut want_block = false;
+        let mut trips = [false; 2];
+        for r in 0..nrules {
+            let thr = thr4[r];
+            let trip = match kinds[r] {
+                0 => (load4 > thr) & ((s.p[1] == 0) | !bbr_pass),
+                1 => (done > 0) & (rt_sum * 4 >= thr * done) | ((done == 0) & (thr == 0)),
+                2 => conc * 4 >= thr,
+                3 => passes * 4 >= thr,
+                _ => (cpu4 * 100 > thr) & ((s.p[1] == 0) | !bbr_pass),
+            };
+            trips[r] = trip;
+            want_block = want_block | trip;
+        }
+        let blocks_before = rec.blocks.load(Ordering::SeqCst);
+        let got = EntryBuilder::new(res.clone())
+            .with_resource_type(ResourceType::Common)
+            .with_traffic_type(if inbound { TrafficType::Inbound } else { TrafficType::Outbound })
+            .with_slot_chain(chain.clone())
+            .build();
+        match got {
+            Ok(e) => {
+                vrt::cover("admitted");
+                vrt::check(!inbound | !want_block, "C09:admitted-though-a-metric-trips");
+                e.exit();
+                if inbound {
+                    ev_pass_t.push(t);
+                    ev_done_t.push(t);
+                    ev_done_rt.push(0);
                 }
             }
-            vrt::check(named, "C09:triggering-rule");
+            Err(_) => {
+                vrt::cover("rejected");
+                vrt::check(inbound, "C09:outbound-entry-rejected");
+                vrt::check(want_block, "C09:rejected-though-no-metric-trips");
+                vrt::check(rec.blocks.load(Ordering::SeqCst) == blocks_before + 1, "C09:block-notified-once");
+                vrt::check(rec.last_block.load(Ordering::SeqCst) == 4, "C09:block-type-system");
+                let mut named = false;
+                for r in 0..nrules {
+                    if same_rule(&rec, &rules[r]) {
+                        named = named | trips[r];
+                    }
+                }
+                vrt::check(named, "C09:triggering-rule");
+            }
         }
     }
     for (e, _) in open {
